@@ -293,7 +293,7 @@ impl Prop for C17Prop {
         vec![Section {
             name: "random",
             kind: SectionKind::Random {
-                cases: tier.pick(1_500, 4_000),
+                cases: tier.pick(1_500, 3_000),
                 maxlen: 5000,
             },
             exhaustive: false,
@@ -301,7 +301,7 @@ impl Prop for C17Prop {
         }, Section {
             name: "direct_uses",
             kind: SectionKind::Random {
-                cases: tier.pick(1_200, 6_000),
+                cases: tier.pick(1_200, 5_000),
                 maxlen: 80,
             },
             exhaustive: false,
